@@ -4,6 +4,7 @@ import (
 	"go/token"
 	"go/types"
 	"golang.org/x/tools/go/ssa"
+	"regexp/syntax"
 	"strings"
 
 	"pwv/internal/core"
@@ -235,6 +236,35 @@ func runC20(c *Ctx) {
 		R.Check(isK && k < 0, "C20.R3", "ParseParameters:scan-all-markers", c.at(ci), "every marker of the query text is considered (the highest index may be the last marker)", "FindAll*(.., n) with a negative constant n", "the marker scan is limited to n matches: a highest $n that first appears after the limit is missed and the reported length is too short")
 	}
 	R.Floor("C20.R3", "marker scans in ParseParameters", nScan, 1)
+	// the position group captures the whole number: a bounded repetition (\d{1,5}) cuts "$100000" into "$10000" + "0"
+	// and reports 10000 where the index is 100000 (capped to 65535)
+	for _, ci := range core.Calls(pp) {
+		call, isCall := ci.(*ssa.Call)
+		if !isCall {
+			continue
+		}
+		l := core.NewLin(c.P, pp, c.modSets(), nil)
+		re := l.ScanPattern(call)
+		if re == nil {
+			continue
+		}
+		var walkRe func(r *syntax.Regexp, inCap bool)
+		walkRe = func(r *syntax.Regexp, inCap bool) {
+			if r.Op == syntax.OpCapture {
+				inCap = true
+			}
+			if inCap && r.Op == syntax.OpRepeat && len(r.Sub) == 1 && r.Sub[0].Op == syntax.OpCharClass && len(r.Sub[0].Rune) == 2 && r.Sub[0].Rune[0] == '0' && r.Sub[0].Rune[1] == '9' {
+				R.Check(r.Max == -1, "C20.R3", "QueryParameters:position-group-unbounded", c.at(ci), "a positional marker's number is captured whole, however many digits it has", "the digit repetition of the capture group has no upper bound", sprintf("the capture group takes at most %d digits: a longer index is cut short and the rest of its digits is skipped, so the reported length is not the highest $n (capped to 65535)", r.Max))
+			}
+			if inCap && (r.Op == syntax.OpPlus || r.Op == syntax.OpStar) && len(r.Sub) == 1 && r.Sub[0].Op == syntax.OpCharClass {
+				R.OK("C20.R3", "QueryParameters:position-group-unbounded", c.at(ci), "a positional marker's number is captured whole, however many digits it has", "the digit repetition of the capture group has no upper bound")
+			}
+			for _, sub := range r.Sub {
+				walkRe(sub, inCap)
+			}
+		}
+		walkRe(re, false)
+	}
 
 	// ---------- R4: towards ParameterDescription
 	// the declared list is written only where a statement is built: the WithParameters option and the cache's copy
